@@ -105,11 +105,14 @@ ExecEv ==
     /\ mirror' = IF cache' # cache THEN <<>> ELSE mirror
     /\ UNCHANGED <<lazy, now, serial, handles, dump, dumpOf, nops, hist, loose>>
 
+\* the background `next` was invoked.  It may be logged before the stale Exec that caused it (that
+\* call has not returned yet); a second invocation for a key whose refresh is running is never allowed.
 RefreshStart ==
     /\ IsEvent("RefreshStart")
-    /\ \E f \in inflight :
-          /\ f.i = Ev.i /\ f.key = KeyOf(Ev.q) /\ f.rid = 0
-          /\ inflight' = (inflight \ {f}) \cup {[f EXCEPT !.rid = Ev.sid]}
+    /\ LET k == KeyOf(Ev.q)
+           mine == {f \in inflight : f.i = Ev.i /\ f.key = k} IN
+       /\ \A f \in mine : f.rid = 0
+       /\ inflight' = (inflight \ mine) \cup {[i |-> Ev.i, key |-> k, q |-> QOf(Ev.q), rid |-> Ev.sid]}
     /\ UNCHANGED <<lazy, now, cache, serial, handles, dump, dumpOf, mirror, obs, lastq, nops, hist, loose>>
 
 RefreshEndEv ==
@@ -132,7 +135,7 @@ MutateEv ==
 \* lifetime and age at the time of the dump (age = -1: stored time not examined).  A loose instance may
 \* have chosen shorter lifetimes.
 DumpMatches(i, x, e) ==
-    /\ e.id = x.id
+    /\ x.id \in {e.id, -1}          \* -1: an answer without records carries no serial
     /\ IF x.age = -1
        THEN IF i \in loose
             THEN x.rem <= e.msgExp - now /\ x.crem <= e.cacheExp - now
@@ -154,12 +157,12 @@ FlushEv ==
 
 DumpEv ==
     /\ IsEvent("Dump")
-    /\ LET i == Ev.i xs == ToSet(Ev.ents) live == LiveOf(cache[i]) IN
+    /\ LET i == Ev.i xs == ToSet(Ev.ents) live == LiveOf(cache[i])
+           kept == {e \in live : \E x \in xs : DumpMatches(i, x, e)} IN
        /\ \A x \in xs : \E e \in live : DumpMatches(i, x, e)
-       /\ i \in loose \/ \A e \in live : \E x \in xs : x.id = e.id
-       /\ Cardinality(xs) = Len(Ev.ents)
-       /\ \A x, y \in xs : x.id = y.id => x = y
-       /\ LET nc == {Refined(e, CHOOSE x \in xs : x.id = e.id) : e \in {e \in live : \E x \in xs : x.id = e.id}} IN
+       /\ i \in loose \/ kept = live
+       /\ \A x, y \in xs : (x.id = y.id /\ x.id # -1) => x = y
+       /\ LET nc == {IF \E x \in xs : x.id = e.id THEN Refined(e, CHOOSE x \in xs : x.id = e.id) ELSE e : e \in kept} IN
           /\ cache' = [cache EXCEPT ![i] = nc]
           \* set = FALSE: a read-back for inspection only; later loads still use the previous dump
           /\ dump' = IF Ev.set THEN nc ELSE dump
